@@ -250,8 +250,23 @@ func (e *Exec) checkParams(before, after *AppState, spec *TxSpec, stage string) 
 	}
 	// the stored value must be the submitted one (when it is well-formed) or the old one
 	if spec.Kind == "change_param" && len(changed) > 0 {
-		if canon, ok := canonicalParam(key, spec.ParamVal); ok && canon != raw {
+		canon, ok := canonicalParam(key, spec.ParamVal)
+		if ok && canon != raw {
 			e.addViol(viol("C17", "param-value", e.step, map[string]string{"key": key}, "parameter %s was submitted as %s but stored as %s", key, spec.ParamVal, raw))
+		}
+		if !ok {
+			// a value that does not decode as the parameter's type changes nothing: anything else stores a
+			// value nobody submitted
+			e.addViol(viol("C17", "malformed-value-changed-param", e.step, map[string]string{"key": key},
+				"parameter %s was submitted with the malformed value %s and is now %s (was %s)", key, spec.ParamVal, raw, before.Params[key]))
+		}
+		if !ok {
+			e.res.Stats.Probe("malformed_param_value_by_owner")
+		}
+	}
+	if spec.Kind == "change_param" && len(changed) == 0 {
+		if _, ok := canonicalParam(key, spec.ParamVal); !ok {
+			e.res.Stats.Probe("malformed_param_value_by_owner")
 		}
 	}
 	e.adoptParam(key, raw)
